@@ -84,6 +84,7 @@ func liveStdTypes(repo string) []string {
 }
 
 var umodDir string
+var pmodDirs map[string]string // context name -> the directory its search path has for pmod (none for the others)
 
 // initRuntime prepares what every real run needs: the source module umod and a harmless default
 // sink for REPL echoes (the stock vm.PrintExpr writes to the process's stdout).
@@ -91,6 +92,12 @@ func initRuntime(scratch string) {
 	umodDir = filepath.Join(scratch, "umoddir")
 	os.MkdirAll(umodDir, 0o755)
 	os.WriteFile(filepath.Join(umodDir, "umod.py"), []byte("print('body')\n"), 0o644)
+	// pmod: one module name, two files; which one a context finds depends on its own sys.path (spec: PathOf)
+	for _, d := range []string{"A", "B"} {
+		os.MkdirAll(filepath.Join(scratch, "pmod"+d), 0o755)
+		os.WriteFile(filepath.Join(scratch, "pmod"+d, "pmod.py"), []byte("print('body"+d+"')\n"), 0o644)
+	}
+	pmodDirs = map[string]string{"c1": filepath.Join(scratch, "pmodA"), "c2": filepath.Join(scratch, "pmodB")}
 	vm.PrintExpr = func(string) {}
 	stdlib.VerifYield = func(c py.Context, point string) {
 		if point != "pb" {
@@ -218,6 +225,9 @@ func (c *cx) create() {
 		opts = py.DefaultContextOpts()
 	default:
 		opts = py.ContextOpts{SysArgs: []string{"prog"}, SysPaths: []string{umodDir}}
+		if d := pmodDirs[c.name]; d != "" {
+			opts.SysPaths = append(opts.SysPaths, d)
+		}
 	}
 	ctx := py.NewContext(opts)
 	out := &pyrun.Writer{}
@@ -228,6 +238,9 @@ func (c *cx) create() {
 		// the source module umod must be importable in every configuration
 		if l, ok := sys.Globals["path"].(*py.List); ok {
 			l.Append(py.String(umodDir))
+			if d := pmodDirs[c.name]; d != "" {
+				l.Append(py.String(d))
+			}
 		}
 	}
 	c.pc = &pyrun.Ctx{Ctx: ctx, Out: out}
